@@ -120,6 +120,7 @@ pub fn inline_menu() -> Vec<Vec<N>> {
         vec![e("strong", vec![t("qn"), e("code", vec![t("qo")])]), t("qp")],
         vec![e("del", vec![t("qs qu")]), t(" e\u{301}t")],
         vec![e("em", vec![t("qv")]), t(" "), e("strong", vec![t("qw")]), t(" "), e("code", vec![t("qx")])],
+        vec![t("qy "), ea("a", &[("href", "/2")], vec![t("qq"), e("strong", vec![t("qr")]), t("qt")])],
     ]
 }
 
